@@ -57,24 +57,25 @@ type harness struct {
 	dataDir  string
 	rootDirs map[string]string
 
-	mu      sync.Mutex
-	cond    *sync.Cond
-	out     *bufio.Writer
-	events  int
-	auto    bool
-	pending []*token
-	seq     map[string]int
-	trees   map[string]*core.Entry // fake endpoints: the contents of the two roots
-	mgr     *synchronization.Manager
-	session string
-	infl    map[int]chan struct{}
-	kinds   map[int]string
-	timeout bool
-	drift   int
-	closed  bool
-	freeMs  int64 // milliseconds during which the harness itself held no endpoint operation at a closed gate
+	mu             sync.Mutex
+	cond           *sync.Cond
+	out            *bufio.Writer
+	events         int
+	auto           bool
+	pending        []*token
+	seq            map[string]int
+	trees          map[string]*core.Entry // fake endpoints: the contents of the two roots
+	mgr            *synchronization.Manager
+	session        string
+	infl           map[int]chan struct{}
+	kinds          map[int]string
+	timeout        bool
+	drift          int
+	closed         bool
+	inShutdown     bool  // Manager.Shutdown of a restart is in progress (it waits for the loop, hence for gated operations)
+	freeMs         int64 // milliseconds during which the harness itself held no endpoint operation at a closed gate
 	pendingTimeout time.Duration
-	logger  *logging.Logger
+	logger         *logging.Logger
 }
 
 func newHarness(cid string, real bool, mode string, dir string, w io.Writer) *harness {
@@ -193,7 +194,8 @@ func (h *harness) takePending(side, op string, d time.Duration) *token {
 
 // waitCond waits on c (whose lock is held) for at most d.
 func waitCond(c *sync.Cond, d time.Duration) {
-	t := time.AfterFunc(d, c.Broadcast)
+	// the timer takes the lock first: it can only get it once Wait has parked us, so its wake-up is never lost
+	t := time.AfterFunc(d, func() { c.L.Lock(); c.L.Unlock(); c.Broadcast() })
 	c.Wait()
 	t.Stop()
 }
@@ -511,7 +513,13 @@ func (h *harness) exec(id int, kind string) error {
 		return mgr.Terminate(ctx, h.sel(), "")
 	case "restart":
 		// the daemon goes down: Shutdown; every call into the old manager returns; a new manager loads the data directory
+		h.mu.Lock()
+		h.inShutdown = true
+		h.mu.Unlock()
 		mgr.Shutdown()
+		h.mu.Lock()
+		h.inShutdown = false
+		h.mu.Unlock()
 		h.waitOthers(id, cmdWatchdog)
 		m, err := synchronization.NewManager(h.logger)
 		if err != nil {
@@ -550,7 +558,7 @@ func (h *harness) call(id int, kind string) {
 	// operation (the replay has drifted from the scripted behaviour), let that operation through
 	for start := time.Now(); h.restartInFlight() && time.Since(start) < cmdWatchdog; {
 		time.Sleep(2 * time.Millisecond)
-		if time.Since(start) > 200*time.Millisecond {
+		if time.Since(start) > 200*time.Millisecond && h.shuttingDown() {
 			h.releasePending()
 		}
 	}
@@ -630,6 +638,12 @@ func (h *harness) waitAll() bool {
 		}
 	}
 	return ok
+}
+
+func (h *harness) shuttingDown() bool {
+	h.mu.Lock()
+	defer h.mu.Unlock()
+	return h.inShutdown
 }
 
 func (h *harness) restartInFlight() bool {
